@@ -94,6 +94,11 @@ def run_property(pid: str, tier: str, root: str, out_dir: str, evidence_dir: str
         say(f"SELFTEST mutants_applied={selftest['applied']} fired={selftest['fired']} weak={len(selftest['weak'])} twins={selftest['twins']} twins_silent={selftest['twins_silent']}")
         for w in selftest["weak"]:
             say(f"SELFTEST-WEAK {w}")
+        sd = selftest.get("independent_seeds")
+        if sd:
+            say(f"SELFTEST independent_seeds={sd['seeds']} caught={sd['caught']} missed={len(sd['missed'])} n/a={len(sd['not_applicable'])}")
+            for w in sd["missed"]:
+                say(f"SELFTEST-WEAK seed {w}")
     return 1 if new else 0
 
 
